@@ -59,6 +59,11 @@ CLAIMED = {
    text="TLC exports Norm(v) for every value of every VT schema and checks that it is stable under canonicalisation. The harness builds, per value, four representations (built, rebuilt independently, nil instead of empty collections, round-tripped) and evaluates the generated Equals on all pairs (sampled beyond 400000 pairs per schema): Equals must coincide with equality of the specification's normal forms (hence reflexive, symmetric, transitive, insensitive to map order and nil-vs-empty, sensitive to every single-position mutation), must be symmetric, equal values must hash equally, complex keys must compare and hash on their key part only.",
    note="pairs involving NaN only must not be equal when Norm differs; values carrying a raw record are skipped (RawRecord.Equals is never true by design); process independence of hashes is not re-checked here",
    design="5/C10"),
+ "C13": dict(
+   technique="TLA+ Canon / DefaultInstance / OmitSubsets (Values.tla) checked by TLC (a present value wins, an omitted one gets exactly the default; the default instance agrees with decoding); every (record, subset of defaulted fields omitted) document and every default instance exported and replayed on generated bindings through 5 readers and the generated constructors, with in-place mutation to detect sharing",
+   text="TLC enumerates every record of the VT family that carries defaulted fields (every primitive, enum, fixed, typeref, record, union, empty and non-empty array and map literal; declared directly, in a nested required record, and inherited through one and two levels of include) and every subset of those fields omitted, and checks the declarative statement on Canon. Each document is decoded by the JSON, header, path, query and untyped readers and compared with Canon(doc); each New<X>WithDefaultValues is compared with DefaultInstance; one instance's default-populated arrays, maps and byte strings are overwritten in place and a second and a later instance re-compared.",
+   note="open known finding: defaults inherited through an included record are neither decoded nor constructed (IncMid, IncTop)",
+   design="5/C13"),
 }
 
 NOT_YET = {}
